@@ -21,7 +21,10 @@ import (
 	dlog "github.com/drand/drand/v2/common/log"
 	"github.com/drand/drand/v2/crypto"
 	"github.com/drand/drand/v2/internal/chain"
+	"github.com/drand/drand/v2/internal/dkg"
 	"github.com/drand/drand/v2/internal/net"
+	"github.com/drand/drand/v2/internal/test"
+	pdkg "github.com/drand/drand/v2/protobuf/dkg"
 )
 
 type c13Evaluated struct {
@@ -109,6 +112,7 @@ func (sc *c13Scenario) evaluate(sch *crypto.Scheme, pub kyber.Point, engine chai
 	// pass 2: the oracle
 	var evs []*c13Evaluated
 	var prevEpoch uint32
+	prevLabel := ""
 	var lastEv *c13Evaluated
 	prevWhats := map[string]bool{}
 	nontrivial := 0
@@ -126,10 +130,11 @@ func (sc *c13Scenario) evaluate(sch *crypto.Scheme, pub kyber.Point, engine chai
 			run.Inconclusive("scratch copy failed: " + err.Error())
 			continue
 		}
-		findings, info, label := chk.check(img, d, func(epoch uint32) string { return sc.label(img, prevEpoch, epoch) })
+		findings, info, label := chk.check(img, d, func(epoch uint32, cur string) string { return sc.label(img, prevEpoch, epoch, cur, prevLabel) })
 		os.RemoveAll(d)
 		if img.Synth == "" {
 			prevEpoch = img.Epoch
+			prevLabel = label
 		}
 		ev := &c13Evaluated{img: img, label: label, info: info, findings: findings, covers: []string{img.Hook}}
 		evs = append(evs, ev)
@@ -171,6 +176,69 @@ func (sc *c13Scenario) evaluate(sch *crypto.Scheme, pub kyber.Point, engine chai
 	sel := sc.selectRestarts(evs)
 	for _, ev := range sel {
 		sc.restart(ev)
+	}
+	sc.restartJoinerImage()
+}
+
+// dkgStatusOf: a daemon restarted on an image without a group is a node in (or before) a DKG: its DKG control
+// service must answer.
+func (sc *c13Scenario) dkgStatusOf(ctrlPort, label string, ci map[string]any) {
+	c, err := net.NewDKGControlClient(sc.lg, ctrlPort)
+	if err != nil {
+		return
+	}
+	var st *pdkg.DKGStatusResponse
+	for i := 0; i < 20; i++ {
+		ctx, cancel := context.WithTimeout(context.Background(), 3*time.Second)
+		st, err = c.DKGStatus(ctx, &pdkg.DKGStatusRequest{BeaconID: sc.nt.beaconID})
+		cancel()
+		if err == nil {
+			break
+		}
+		time.Sleep(100 * time.Millisecond)
+	}
+	if err != nil {
+		sc.run.Violation("C13/restart-dkg-status-unavailable/"+label, fmt.Sprintf("the restarted daemon loaded but its DKG control service does not answer: %v", err), ci)
+		return
+	}
+	sc.run.Seen("restarted_dkg_states", dkg.Status(st.Current.State).String())
+}
+
+// restartJoinerImage: the node that was invited to the first reshare, had joined and was waiting for the execution
+// when it "crashed" (image = its folder at that moment, no completed epoch, no group): it must come up again.
+func (sc *c13Scenario) restartJoinerImage() {
+	if sc.joinerImage == "" || sc.p.Restarts < 0 {
+		return
+	}
+	run := sc.run
+	label := "joiner-waiting-for-reshare"
+	ci := sc.caseInfo(nil, label)
+	ci["label"] = label
+	ci["image"] = "joiner-waiting"
+	folder := filepath.Join(sc.dir, "restart", "joiner-waiting")
+	os.RemoveAll(folder)
+	if _, _, err := c13CopyTree(sc.joinerImage, folder); err != nil {
+		run.Inconclusive("joiner image copy failed: " + err.Error())
+		return
+	}
+	// the joiner itself is still running on its own address: the restarted copy listens elsewhere
+	spec := c13RestartSpec{Folder: folder, Addr: test.FreeBind("127.0.0.1"), Ctrl: test.FreePort(), Engine: sc.p.Engine, BeaconID: sc.nt.beaconID}
+	sj, _ := json.Marshal(spec)
+	logf := filepath.Join(sc.dir, "restart", "joiner-waiting.log")
+	out := c13StartRestartChild(string(sj), logf)
+	defer out.stop()
+	run.Count("restarts", 1)
+	run.Eval(label + "|dkg.db")
+	run.Seen("restarted_labels", label)
+	switch out.state {
+	case "loaded":
+		run.Count("restarts_loaded_without_group", 1)
+		sc.dkgStatusOf(spec.Ctrl, label, ci)
+	case "watchdog":
+		run.Inconclusive("restart of the joiner image: child did not report within the watchdog")
+	default:
+		run.Violation("C13/restart-fails/"+label, fmt.Sprintf("a daemon started on the folder of a node that had joined a proposed reshare and was waiting for its execution does not come up: %s: %s\n--- child log tail:\n%s",
+			out.state, out.msg, c13Tail(logf, 1500)), ci)
 	}
 }
 
@@ -384,6 +452,7 @@ func (sc *c13Scenario) restart(ev *c13Evaluated) {
 	expectSync, _ := ev.info["expect_sync"].(bool)
 	if !expectSync {
 		run.Count("restarts_loaded_without_group", 1)
+		sc.dkgStatusOf(sc.victim.ctrlPort, ev.label, ci)
 		return
 	}
 	// bounded progress: the restarted node must reach the head the network had when it came up
